@@ -43,4 +43,10 @@ def stage(chk):
     st = dict(cases[len(cases) // 3]); q = vlib.harness("bbox_ops", [st], W, tag="bbox_selftest")[0]
     altered = norm(st["hull"]); altered = [[altered[0][0] - 1, altered[0][1]], altered[1]] if altered else [[0, 0], [0, 0]]
     chk.require(norm(q["hull"]) != altered, "bounding-box comparison did not notice an altered expectation")
+    # unbounded argument (Apalache): the same laws for ALL integer boxes and points
+    apa = os.path.join(SPECS, "apalache", "BBoxInd.tla")
+    oc, secs = vlib.apalache(apa, ["--init=AnyInit", "--inv=Laws", "--length=0"])
+    chk.cov["apalache_bounding_box_laws"] = {"outcome": oc, "seconds": secs, "scope": "all integer boxes and points"}
+    vlib.log(f"[apalache] BBoxInd: {oc} ({secs:.1f}s)")
+    chk.require(oc != "Error", "Apalache: the min/max bounding-box formulas violate their specification (specification defect)")
     return len(cases)
